@@ -79,8 +79,11 @@ def join (sep : Nat) : List Str → Str
   | [x] => x
   | x :: y :: rest => x ++ sep :: join sep (y :: rest)
 
-/-- `str(n)` -/
-def digits (n : Nat) : Str := (Nat.repr n).toList.map Char.toNat
+/-- `str(n)` for a non-negative int: decimal digits, most significant first (code points) -/
+def digits (n : Nat) : Str :=
+  if h : n < 10 then [48 + n] else digits (n / 10) ++ [48 + n % 10]
+termination_by n
+decreasing_by omega
 
 /-- the structured content of the signature: per-role molecule strings, radical atom indices, fragment groups -/
 structure FmtOut where
